@@ -22,7 +22,7 @@ oracle : on the implementation alone: every outcome is a value or a runtime erro
 import os
 import vcommon as V
 import eval_util as EU
-from gen import evalgen, simgen, builtingen
+from gen import evalgen, simgen, builtingen, histgen, graphgen
 from checks import c07 as C07
 
 
@@ -183,6 +183,78 @@ def run_sims(ctx, model, impl, thorough):
     return requests, len(set(ireq))
 
 
+def run_histories(ctx, impl, thorough):
+    """LONG HISTORIES WITH TIME: one simulator, hundreds / thousands of requests, clock jumps in between (add-only
+    hook VerifAdvanceClock): everything that outlives a request and grows - rate counter entries, penalty boxes,
+    cached objects, call statistics.  Oracle: the history ends (watchdog 20 s of no progress per history), no panic /
+    fatal error, restarts <= 3."""
+    rng = ctx.rng
+    stats = {}
+    cases = [("growth %s ~%d then idle %ds" % (n, size, idle), prog, ops) for n, size, idle, prog, ops in histgen.growth_sweep()]
+    n_sweep = len(cases)
+    for _ in range(600 if thorough else 25):
+        prog, ops = histgen.gen_history(rng, stats)
+        cases.append(("random", prog, ops))
+    reqs = ["main=%s %s" % (prog.encode().hex(), ops) for _, prog, ops in cases]
+    rep = V.run_batch(impl + ["simhist"], reqs, hang_s=20, mem_kb=4_000_000, max_failures=10)
+    total = 0
+    worst = {"rc": 0, "pb": 0, "cache": 0}
+    for (label, prog, ops), r in zip(cases, rep):
+        replay = {"history": label, "program": prog, "ops": ops, "impl": r}
+        if _bad(r) or not r.startswith("requests="):
+            ctx.violation("a long history does not end with a response or a runtime error for every request (%s): %s" % (
+                label, (r or "no reply")[:160]), replay)
+            continue
+        kv = dict(w.split("=") for w in r.split())
+        total += int(kv["requests"])
+        for k in worst:
+            worst[k] = max(worst[k], int(kv[k]))
+        if int(kv["maxrestarts"]) > 3:
+            ctx.violation("a request of a long history was restarted %s times" % kv["maxrestarts"], replay)
+    ctx.coverage["histories"] = {"histories": len(cases), "growth_sweep": n_sweep, "requests": total,
+                                 "largest_state_seen": worst, "generator": dict(sorted(stats.items())),
+                                 "clock_jumps_s": histgen.JUMPS}
+    ctx.samples += [{"history": cases[-1][2][:200], "interpreter": rep[-1]}]
+    return total, len(set(reqs))
+
+
+def run_graphs(ctx, model, impl, thorough):
+    """PROGRAM SIZE / SHAPE for the static passes before execution (CheckFastlyCallTreeLimit, declarations): call graphs
+    of 10-100 (and 1000) subroutines, fan-out 1-3, cycles of length 1-50, ladders, deep chains.  Oracle: the request ends
+    within the watchdog; when vcl_recv does not enter the graph the verdict (accepted / Too many sub calls) is compared
+    with Model/CallTree.v."""
+    rng = ctx.rng
+    stats = {}
+    cases = [(label, g, ex) for label, g in graphgen.shape_sweep() for ex in (False, True)]
+    n_sweep = len(cases)
+    for _ in range(3000 if thorough else 150):
+        cases.append(("random", graphgen.gen_graph(rng, stats), rng.random() < 0.4))
+    g = [("GET", "/")]
+    ireq = [_req([("main", graphgen.render(gr, ex))], g) for _, gr, ex in cases]
+    mreq = [graphgen.model_text(gr, ex) for _, gr, ex in cases]
+    irep = V.run_batch(impl + ["simrun"], ireq, hang_s=3, mem_kb=4_000_000, max_failures=12)
+    mrep = V.run_batch([model], mreq, hang_s=60)
+    out = {}
+    for (label, gr, ex), ir, mr in zip(cases, irep, mrep):
+        replay = {"shape": label, "subroutines": len(gr), "vcl_recv_enters_the_graph": ex, "program": graphgen.render(gr, ex)[:20000],
+                  "impl": ir, "model": mr}
+        if _bad(ir):
+            ctx.violation("a request to a service with a large / cyclic call graph does not end (%s, %d subroutines): %s" % (
+                label, len(gr), (ir or "no reply")[:120]), replay)
+            continue
+        st, rs, er, cl, lg = ir.split()[0].split(":")
+        key = "error" if er == "1" else "response"
+        if not ex:
+            want = {"ok accepted": "0", "ok rejected": "1"}.get(mr or "")
+            if want is None or want != er:
+                ctx.violation("call-tree verdict differs from Model/CallTree.v (%s): interpreter error=%s, model %s" % (label, er, mr), replay)
+            key = "accepted" if er == "0" else "too many sub calls"
+        out[key] = out.get(key, 0) + 1
+    ctx.coverage["call_graphs"] = {"graphs": len(cases), "shape_sweep": n_sweep, "outcomes": out, "generator": dict(sorted(stats.items())),
+                                   "largest_graph": max(len(gr) for _, gr, _ in cases)}
+    return len(cases), len(set(ireq))
+
+
 def SIM_CORPUS():
     """minimised inputs of the repaired defects (run first)"""
     g = [("GET", "/")]
@@ -249,6 +321,9 @@ def run(ctx):
     n1, d1 = run_grid(ctx, model, impl, thorough)
     n2, d2 = run_builtins(ctx, impl, thorough)
     n3, d3 = run_sims(ctx, model, impl, thorough)
+    n4, d4 = run_histories(ctx, impl, thorough)
+    n5, d5 = run_graphs(ctx, model, impl, thorough)
+    n3, d3 = n3 + n4 + n5, d3 + d4 + d5
     if not proved and not ctx.violations:
         ctx.violation("proof obligation of C08 no longer checks: " + (ctx.broken or "Props/C08.v"),
                       {"no_failing_input": True, "broken": ctx.broken,
